@@ -254,6 +254,41 @@ func init() {
 	})
 	regLazy("(*go/types.Interface).Complete", func(fr *frame, args []value) value { return args[0] })
 
+	regLazy("go/constant.StringVal", func(fr *frame, args []value) value {
+		// The text of string constants is symbolic only up to the "conststr" bound
+		// (default 0: a two-entry menu of concrete texts). Code that parses constant
+		// strings (regexp patterns, flag names, SQL) loops per byte; its own input
+		// space is explored by dedicated harnesses.
+		key := "StringVal(" + fr.i.objID(args[0]) + ")"
+		if n := fr.i.path.ex.opts.bound("conststr", 0); n > 0 {
+			if v, ok := fr.i.path.memo[key]; ok {
+				return v
+			}
+			t := fr.i.path.Fresh(key, SStr)
+			fr.i.path.Assume(Le(StrLen(t), IntLit(int64(n))))
+			v := sym{t, types.String}
+			fr.i.path.memo[key] = v
+			return v
+		}
+		if v, ok := fr.i.path.memo[key]; ok {
+			return v
+		}
+		menu := []string{"", "x y"}
+		v := menu[fr.i.path.choose(len(menu))]
+		fr.i.note(key, v)
+		fr.i.path.memo[key] = v
+		return v
+	})
+	regLazy("go/constant.Int64Val", func(fr *frame, args []value) value {
+		return tuple{fr.i.memoInt("Int64Val("+fr.i.objID(args[0])+")", -1<<62, 1<<62, types.Int64), fr.i.memoBool("Int64ValExact(" + fr.i.objID(args[0]) + ")")}
+	})
+	regLazy("go/constant.Compare", func(fr *frame, args []value) value {
+		return fr.i.memoBool(fmt.Sprintf("Compare(%s,%v,%s)", fr.i.objID(args[0]), args[1], fr.i.objID(args[2])))
+	})
+	regLazy("go/constant.BoolVal", func(fr *frame, args []value) value {
+		return fr.i.memoBool("BoolVal(" + fr.i.objID(args[0]) + ")")
+	})
+
 	// the printer is the environment: message formatting is recorded, not executed
 	reg("(*github.com/go-toolsmith/astfmt.Printer).Sprintf", func(fr *frame, args []value) value {
 		var rendered []value
